@@ -35,6 +35,7 @@ CONSTANTS MaxElems,     \* number of start events after the root
           MaxDepth,     \* maximal length of the context stack
           Fixed,
           Vocab,        \* the element names fed to the handler
+          ReadTypes,    \* the entity types the Reader was asked for (subset of {"n","w","r","c"}): read_types()
           ExportHist
 
 VARIABLES stack, obj, tl, wnl, rml, disc, pend, textSeen, txt, committed, ncommitted, bad, status, nel, hist
@@ -43,6 +44,7 @@ vars == <<stack, obj, tl, wnl, rml, disc, pend, textSeen, txt, committed, ncommi
 AllElems == {"osm", "osmChange", "create", "modify", "delete", "node", "way", "relation", "changeset", "tag", "nd",
              "member", "discussion", "comment", "text", "bounds", "bbox", "foo"}
 ASSUME Vocab \subseteq AllElems
+ASSUME ReadTypes \subseteq {"n", "w", "r", "c"}
 
 NoObj == [t |-> "-", subs |-> <<>>]
 Top == stack[Len(stack)]
@@ -81,10 +83,14 @@ StartTop(el) ==
               /\ UNCHANGED <<obj, tl, wnl, rml, disc, pend, textSeen, txt, committed, ncommitted, bad>>
          ELSE Reject("S:" \o el)
 
-OpenObject(el, t) == /\ Push(el) /\ obj' = [t |-> t, subs |-> <<>>] /\ status' = "run" /\ Rec("S:" \o el)
+\* if (read_types() & <type>) { builder = new ...Builder } - otherwise only the context is pushed
+OpenObject(el, t) == /\ Push(el) /\ obj' = (IF t \in ReadTypes THEN [t |-> t, subs |-> <<>>] ELSE NoObj) /\ status' = "run" /\ Rec("S:" \o el)
                      /\ UNCHANGED <<tl, wnl, rml, disc, pend, textSeen, txt, committed, ncommitted, bad>>
+
 PushOnly(el, c) == /\ Push(c) /\ status' = "run" /\ Rec("S:" \o el)
                    /\ UNCHANGED <<obj, tl, wnl, rml, disc, pend, textSeen, txt, committed, ncommitted, bad>>
+\* the element is accepted but nothing is built (its entity type was not asked for)
+Skip(el, c) == PushOnly(el, c)
 
 \* data_level_element(element, attrs, in_change_section)
 DataLevel(el, inChange) ==
@@ -98,6 +104,7 @@ DataLevel(el, inChange) ==
       [] OTHER -> PushOnly(el, "other")
 
 InNode(el) ==
+    IF el = "tag" /\ "n" \notin ReadTypes THEN Skip(el, "tag") ELSE
     IF el = "tag"
       THEN LET g == GetTag(obj.subs) IN
            /\ Push("tag") /\ obj' = [obj EXCEPT !.subs = g.s] /\ tl' = g.tl /\ status' = "run" /\ Rec("S:tag")
@@ -105,7 +112,8 @@ InNode(el) ==
       ELSE Reject("S:" \o el)
 
 InWay(el) ==
-    CASE el = "nd" ->       \* m_tl_builder.reset(); if (!m_wnl_builder) new; add_node_ref
+    CASE el \in {"nd", "tag"} /\ "w" \notin ReadTypes -> Skip(el, el)
+      [] el = "nd" ->       \* m_tl_builder.reset(); if (!m_wnl_builder) new; add_node_ref
             LET S == IF wnl = 0 THEN NewSub("N") ELSE obj.subs
                 w == IF wnl = 0 THEN Len(S) ELSE wnl IN
             /\ Push("nd") /\ tl' = 0 /\ wnl' = w /\ obj' = [obj EXCEPT !.subs = Bump(S, w)] /\ status' = "run" /\ Rec("S:nd")
@@ -118,7 +126,8 @@ InWay(el) ==
       [] OTHER -> Reject("S:" \o el)
 
 InRelation(el) ==
-    CASE el = "member" ->
+    CASE el \in {"member", "tag"} /\ "r" \notin ReadTypes -> Skip(el, el)
+      [] el = "member" ->
             LET S == IF rml = 0 THEN NewSub("M") ELSE obj.subs
                 m == IF rml = 0 THEN Len(S) ELSE rml IN
             /\ Push("member") /\ tl' = 0 /\ rml' = m /\ obj' = [obj EXCEPT !.subs = Bump(S, m)] /\ status' = "run" /\ Rec("S:member")
@@ -131,7 +140,8 @@ InRelation(el) ==
       [] OTHER -> Reject("S:" \o el)
 
 InChangeset(el) ==
-    CASE el = "discussion" ->       \* m_tl_builder.reset(); if (!m_changeset_discussion_builder) new
+    CASE el \in {"discussion", "tag"} /\ "c" \notin ReadTypes -> Skip(el, el)
+      [] el = "discussion" ->       \* m_tl_builder.reset(); if (!m_changeset_discussion_builder) new
             LET S == IF disc = 0 THEN NewSub("D") ELSE obj.subs
                 d == IF disc = 0 THEN Len(S) ELSE disc IN
             /\ Push("discussion") /\ tl' = 0 /\ disc' = d /\ obj' = [obj EXCEPT !.subs = S] /\ status' = "run" /\ Rec("S:discussion")
@@ -145,7 +155,10 @@ InChangeset(el) ==
       [] OTHER -> Reject("S:" \o el)
 
 InDiscussion(el) ==
-    IF el = "comment"
+    IF el = "comment" /\ "c" \notin ReadTypes
+      THEN /\ Push("comment") /\ textSeen' = FALSE /\ status' = "run" /\ Rec("S:comment")
+           /\ UNCHANGED <<obj, tl, wnl, rml, disc, pend, txt, committed, ncommitted, bad>>
+    ELSE IF el = "comment"
       THEN  \* add_comment(): (repaired) finish a pending comment first, then append the new one
            LET S1 == IF pend /\ Fixed THEN Finish(obj.subs, disc) ELSE obj.subs
                \* as shipped a comment appended behind an incomplete one lands on an unpadded position
@@ -199,8 +212,8 @@ End ==
     /\ status = "run" /\ stack # <<>>
     /\ Pop /\ Rec("E") /\ nel' = nel
     /\ status' = IF Len(stack) = 1 THEN "done" ELSE "run"
-    /\ CASE Top \in {"node", "way", "relation", "changeset"} -> CommitObject
-         [] Top = "text" ->      \* add_comment_text(m_comment_text); m_comment_text.clear()
+    /\ CASE Top \in {"node", "way", "relation", "changeset"} /\ obj # NoObj -> CommitObject
+         [] Top = "text" /\ "c" \in ReadTypes ->      \* add_comment_text(m_comment_text); m_comment_text.clear()
               /\ LET S == obj.subs IN
                  obj' = [obj EXCEPT !.subs =
                            IF pend THEN [S EXCEPT ![disc].cm[Len(S[disc].cm)] = [complete |-> TRUE, nonempty |-> txt]]
@@ -213,7 +226,7 @@ End ==
 
 \* characters(): only inside <text> (one event stands for any non-empty run of character data)
 Chars ==
-    /\ status = "run" /\ stack # <<>> /\ Top = "text" /\ ~txt
+    /\ status = "run" /\ stack # <<>> /\ Top = "text" /\ ~txt /\ "c" \in ReadTypes
     /\ txt' = TRUE /\ Rec("C") /\ nel' = nel
     /\ UNCHANGED <<stack, obj, tl, wnl, rml, disc, pend, textSeen, committed, ncommitted, bad, status>>
 
@@ -243,7 +256,8 @@ NoStaleBuilders == (stack # <<>> /\ Top \in {"osm", "osmChange", "create", "modi
                        => (obj = NoObj /\ OpenBuilders = {} /\ ~pend)
 
 \* an object is open exactly while its element is on the stack
-ObjectMatchesStack == (obj # NoObj) <=> (\E i \in 1..Len(stack) : stack[i] \in {"node", "way", "relation", "changeset"})
+TypeOfCtx(c) == CASE c = "node" -> "n" [] c = "way" -> "w" [] c = "relation" -> "r" [] c = "changeset" -> "c" [] OTHER -> "-"
+ObjectMatchesStack == (obj # NoObj) <=> (\E i \in 1..Len(stack) : TypeOfCtx(stack[i]) \in ReadTypes)
 
 Terminal == status \in {"reject", "done"}
 Export == Terminal => PrintT(<<"CASE", ToJson([ev |-> hist,
